@@ -12,4 +12,14 @@ CLAIMED = {
   "technique": "Coq proof (round trip by induction over item lists) + model/implementation correspondence",
  },
 }
+CLAIMED["C19"] = {
+  "text": "Theorems over ALL argument vectors, file systems and libraries for the model of tsh.go: success writes exactly the library's bytes to "
+          "D/<stem>.<ext> per target and nothing else, bad options / failing targets exit non-zero leaving the failing target's file untouched, "
+          "target order and repetition are irrelevant. Tied to the code by running the real binary on generated argument vectors and comparing "
+          "exit class and directory tree with the extracted model and with a Go-side oracle.",
+  "ref": "DESIGN.md section 5/C19",
+  "note": "Trusted: Coq kernel; Cli/Tsh.v as mirror of tsh.go (checked by correspondence only); OS file system abstracted as a map; library passed as parameter. "
+          "Input named like an output file is overwritten (hypothesis of C19_nothing_else_touched).",
+  "technique": "Coq proof over an abstract file system + binary-level correspondence",
+}
 NOT_CLAIMED = {}
